@@ -497,8 +497,23 @@ def _case(arg) -> Dict[str, Any]:
                         rt.lib(fails, "critical_path_analysis(prior request)", inp, ta.critical_path_analysis, rank=0, annotation="ProfilerStep", instance_id=prior, _allow=(AssertionError,))
                     except AssertionError:
                         pass  # the prior window may be of the known class D16; irrelevant for the request under test
+                def set_opt(v):
+                    if v:
+                        os.environ["CRITICAL_PATH_ADD_ZERO_WEIGHT_LAUNCH_EDGE"] = "1"
+                    else:
+                        os.environ.pop("CRITICAL_PATH_ADD_ZERO_WEIGHT_LAUNCH_EDGE", None)
+
                 g, success = rt.lib(fails, "critical_path_analysis", inp, ta.critical_path_analysis, rank=0, annotation="ProfilerStep", instance_id=inst)
                 n = check_graph(seed, evs, ta, g, success, inst, zero_w, fails, inp)
+                if (seed // 2) % 2 == 1 and len(arg) <= 2 and not fails:
+                    # the option is changed between analyses of one session (on -> off -> on or off -> on -> off): every graph is built under the value in force
+                    for v in (not zero_w, zero_w):
+                        set_opt(v)
+                        inp2 = {**inp, "zero_weight_launch_edges": v, "option_changed_since_the_previous_analysis_of_the_session": True}
+                        g2, ok2 = rt.lib(fails, "critical_path_analysis", inp2, ta.critical_path_analysis, rank=0, annotation="ProfilerStep", instance_id=inst)
+                        n += check_graph(seed, evs, ta, g2, ok2, inst, v, fails, inp2)
+                        if fails:
+                            break
             except rt.LibFailure:
                 n = 1
     finally:
